@@ -337,7 +337,9 @@ add("b01", ["C01", "C02", "C05", "C08", "C09", "C11", "C12", "C13"], [
     (P, "            if critical_failure:\n                await self._tidy_tasks(pending)", "            if critical_failure:\n                await self._reap(pending)"),
     (P, "                await self._feedback(pending, \"TIDYING forever\")\n                await self._tidy_tasks(pending)",
         "                await self._feedback(pending, \"TIDYING forever\")\n                await self._reap(pending)"),
-    (P, "        await self._tidy_tasks(pending)\n        # we might need", "        await self._reap(pending)\n        # we might need"),
+    (P, "            await self._tidy_tasks(pending)\n            # we might need", "            await self._reap(pending)\n            # we might need"),
+    (P, "            await self._tidy_tasks(tasks)\n            raise", "            await self._reap(tasks)\n            raise"),
+    (S, "            await self._tidy_tasks(\n", "            await self._reap(\n"),
 ], expect='silent')
 add("b07", ["C01", "C02", "C05", "C08", "C09", "C12", "C13"], [
     (P, """        while True:
@@ -359,3 +361,79 @@ add("b10", ["C01", "C02", "C05", "C08", "C09", "C12"], (P, """            if not
                 print("iteration", len(done), len(pending))
             if not done:
                 await self._feedback(None,"""), expect='silent')
+
+# ------------------------------------------------------------------ C11 / C13
+HANDLER = """        except asyncio.CancelledError:
+            # our enclosing scheduler is cancelling us (it has timed out, or
+            # one of its critical jobs has failed); pass that on to the jobs
+            # that we have started ourselves, and wait for them, so that
+            # nothing keeps on running behind the scenes
+            await self._tidy_tasks(
+                [job._task for job in self.jobs if job._task is not None])
+            raise
+"""
+add("m11a", ["C11", "C13"], (S, HANDLER, """        except asyncio.CancelledError:
+            raise
+"""), rules=["R11.2", "R13.6"])
+add("m11b", ["C11", "C13"], (S, "[job._task for job in self.jobs if job._task is not None])",
+                             "[job._task for job in self.jobs if job.is_running()])"), rules=["R11.2", "R13.6"])
+add("m11b2", ["C11"], (S, """            await self._tidy_tasks(
+                [job._task for job in self.jobs if job._task is not None])
+            raise""", """            for job in self.jobs:
+                if job._task is not None:
+                    job._task.cancel()
+            raise"""), rules=["R11.2", "R11.3"], note="cancels but does not wait")
+add("m11c", ["C11", "C13"], (P, """            await self._tidy_tasks(pending)
+            # we might need to consume any exception as well ?""", """            # we might need to consume any exception as well ?"""),
+    rules=["R11.1", "R13.4"])
+add("m11d", ["C11", "C13"], (P, """            await self._tidy_tasks(tasks)
+            raise""", """            raise"""), rules=["R11.2", "R13.6"])
+add("m11e", ["C11"], (S, "        except asyncio.CancelledError:\n            # our enclosing", "        except asyncio.TimeoutError:\n            # our enclosing"),
+    rules=["R11.2"])
+add("m13a", ["C13", "C05"], (P, """                await self._tidy_tasks(pending)
+                await self.co_shutdown()
+                self._failed_critical = True""", """                await self._tidy_tasks(pending)
+                self._failed_critical = True"""), rules=["R13.1", "R05.3"])
+add("m13b", ["C13", "C09"], (P, """                await self._tidy_tasks(pending)
+                await self.co_shutdown()
+                return True""", """                await self.co_shutdown()
+                await self._tidy_tasks(pending)
+                return True"""), rules=["R13.1", "R09.3"])
+add("m13c", ["C13"], [(P, """        self._did_shutdown = True
+
+        tasks = [asyncio.create_task(job.co_shutdown())""", """        tasks = [asyncio.create_task(job.co_shutdown())"""),
+                      (P, """            if not pending:
+                return True
+
+            # with nested""", """            self._did_shutdown = True
+            if not pending:
+                return True
+
+            # with nested""")], rules=["R13.2"])
+add("m13d", ["C13"], (P, """        tasks = [asyncio.create_task(job.co_shutdown())
+                 for job in self.jobs]""", """        tasks = [asyncio.create_task(job.co_shutdown())
+                 for job in self.jobs if job.is_done()]"""), rules=["R13.3"])
+add("m13e", ["C13"], (P, "self._record_beginning(self.shutdown_timeout)", "self._record_beginning(self.timeout)"),
+    rules=["R13.4"])
+add("m13f", ["C13"], (P, """            if not pending:
+                return True
+
+            # with nested""", """            if not pending:
+                return False
+
+            # with nested"""), rules=["R13.5"])
+add("m13g", ["C13"], (P, """            # nothing to send, so nothing had to be cancelled
+            return True""", """            return"""), rules=["R13.5"])
+add("m13h", ["C13"], (P, """        if self._did_shutdown:
+            # nothing to send, so nothing had to be cancelled
+            return True
+
+""", ""), rules=["R13.2"])
+add("m13i", ["C13"], (P, "            _, pending = await asyncio.wait(tasks, timeout=timeout)",
+                      "            _, pending = await asyncio.wait(tasks)"), rules=["R13.4"])
+add("m10a", ["C13", "C10"], (S, "class Scheduler(PureScheduler, AbstractJob):", "class Scheduler(AbstractJob, PureScheduler):"),
+    rules=["R13.3", "R10.1"])
+add("b13a", ["C13", "C11"], (P, """        self._record_beginning(self.shutdown_timeout)
+        timeout = self._remaining_timeout()
+""", """        timeout = self.shutdown_timeout
+"""), expect='silent')
